@@ -899,3 +899,27 @@ Proof.
   destruct (is_empty inputs); [reflexivity|].
   destruct (write_results K st _) as [st'|e]; reflexivity.
 Qed.
+
+(* ------------------------------------------------------------------ the repaired directory store *)
+
+(** identifiers a, ba, cba, bb: each a suffix of the next ones *)
+Definition suffix_ids : list str := [[97]; [98;97]; [99;98;97]; [98;98]].
+
+(** with exact-name retirement the directory store is a dictionary on suffix-related identifiers ... *)
+Lemma dir_fixed_good_suffix_ids : good_kind dir_kind_fixed suffix_ids.
+Proof. apply good_kind_b_sound. vm_compute. reflexivity. Qed.
+
+Lemma dir_fixed_good_sample : good_kind dir_kind_fixed sample_ids.
+Proof. apply good_kind_b_sound. vm_compute. reflexivity. Qed.
+
+(** ... which the pinned `endswith` rule is not *)
+Lemma dir_pinned_not_good_suffix_ids : good_kind_b dir_kind suffix_ids = false.
+Proof. vm_compute. reflexivity. Qed.
+
+(** the witness of [dir_suffix_ids_witness] under the repaired store: both orders keep both records *)
+Lemma dir_fixed_suffix_ids_both_orders :
+  exists s1 s2,
+    puts dir_kind_fixed st0 [([98;97], an_nc); ([97], an_obj)] = Ok s1 /\
+    puts dir_kind_fixed st0 [([97], an_obj); ([98;97], an_nc)] = Ok s2 /\
+    length (st_nc s1) = 1%nat /\ length (st_nc s2) = 1%nat /\ length (st_done s1) = 1%nat /\ length (st_done s2) = 1%nat.
+Proof. eexists. eexists. split; [vm_compute; reflexivity|]. split; [vm_compute; reflexivity|]. repeat split. Qed.
